@@ -177,3 +177,5 @@ base["tiers"]["thorough"]={"skip":True}
 add("C08.hold_in_force","VH_c07_hold_restart",SRV,sc+["server/c07.go"],expect_reach=["end"],bounds="the hold time in force after a message from the peer is the negotiated one (3 s), not the configured one (5 s): real fsmHandler.established on the virtual clock (same harness as C07.hold_restart)")
 add("C02.process_message","VH_c06_treat_as_withdraw",TBL,tc+["table/c06.go","table/c02.go","table/c03.go","table/c14.go"],{"segs":1},{"segs":1},expect_reach=["end"],bounds="table.ProcessMessage: every path and withdrawal of an UPDATE with NLRI, withdrawn routes, MP_REACH and MP_UNREACH keeps the ADD-PATH identifier its NLRI carried (same harness as C06.treat_as_withdraw)")
 add("C02.api_delete","VH_c02_api_delete",SRV,sc+["server/c02.go"],{"params":{},"unwind":2200},{"params":{},"unwind":2200},expect_reach=["end"],fixed_clock=True,bounds="BgpServer.AddPath / DeletePath(UUID) with the management loop running next to a peer's route for the same prefix (either order of arrival, symbolic MED)")
+add("C18.neighbor_families","VH_c18_neighbor_families",SRV,sc+["server/c18.go"],expect_reach=["end"],pins={"disposition":1,"med":0,"prepend_as":0},bounds="newNeighborFromAPIStruct on an API peer with two families, one carrying MP-GR / ADD-PATH / prefix-limit / LLGR / import-policy settings (symbolic numbers) and one bare, in either order")
+add("C18.api2path","VH_c18_api2path",SRV,sc+["server/c18.go"],expect_reach=["end"],bounds="toPathApi -> api2apiutilPath and -> api2Path (the AddPathStream conversion) for an IPv4 path with symbolic ORIGIN, MED, AS, path identifier, withdraw and from-external flags")
